@@ -918,10 +918,21 @@ func diffCase(id int, seed int64, out *json.Encoder, big bool) {
 		}
 		// ---- the node diff with one Load failing once (an error is fine; a success must still be a correct node diff)
 		if lres == "ok" && ev.Stores == "one" && !writerCache && ltotal > 0 {
-			for j := 0; j < 4; j++ {
+			// every position of the failing Load when the node diff makes few of them, a sample otherwise
+			var at []int
+			if ltotal <= 30 {
+				for j := 1; j <= ltotal; j++ {
+					at = append(at, j)
+				}
+			} else {
+				for j := 0; j < 8; j++ {
+					at = append(at, 1+rng.Intn(ltotal))
+				}
+			}
+			for _, pos := range at {
 				nm, o2 = reopenBoth()
 				r.st.begin()
-				r.st.failLoadAt = 1 + rng.Intn(ltotal)
+				r.st.failLoadAt = pos
 				a3, r3, lres3, _ := r.linkDiff(nm, o2)
 				r.st.end()
 				ev.FaultRuns++
